@@ -76,7 +76,7 @@ MANIFEST_ENTRY = {
             "args and kwargs (never_lost); define() round-trips for explicit and decorated registration, a decorated subclass "
             "of a decorated class included (the decorator touches the list of the decorated class only). All of this holds "
             "for every keyword name, the five names the ApplicationError constructor takes as attributes (callee, "
-            "callee_authid, callee_authrole, forward_for, enc_algo) and a user keyword named traceback included, and on the "
+            "callee_authid, callee_authrole, forward_for, enc_algo) and a user keyword named traceback included (with traceback forwarding off; with forwarding on that key is reserved for the forwarded traceback, which then takes its place - stated in the theorem, not a loss of user data the property speaks about), and on the "
             "invocation error path, where str(exc) runs before the message is built. "
             "The model is tied to the code by running ~1000 (quick) / ~6000 (thorough) exception x payload x traceback cases "
             "per serializer and framework end-to-end through two real sessions and comparing the ERROR on the wire and the "
